@@ -50,6 +50,12 @@ def run(pid, tier, args):
             raise Infra("MC_Quoting(mappers): %s" % (res2.violation or res2.error))
         v.add_tlc(res2)
         mlines = ["|".join(f) for f in vlib.parse_lines(res2.lines, "M")]
+        # six mappers (more than any small fixed chain length) on streams of at most one token
+        res3 = vlib.run_tlc(wd, "MC_Quoting", modules=["Quoting"], consts={"MaxStream": 1, "Mode": '"mappers"', "NMappers": 6}, timeout=3000)
+        if not res3.ok:
+            raise Infra("MC_Quoting(6 mappers): %s" % (res3.violation or res3.error))
+        v.add_tlc(res3)
+        mlines += ["|".join(f) for f in vlib.parse_lines(res3.lines, "M")]
         mf = os.path.join(wd, "m.txt")
         open(mf, "w").write("\n".join(mlines) + "\n")
         out = vlib.vh(vhbin, ["mapper-run", mf], timeout=3000)
@@ -67,6 +73,6 @@ def run(pid, tier, args):
         v.sample({"unquote_case": qlines[len(qlines) // 3], "format": "style|literal over {a n Q=\" S=' B=` K=\\ N=newline E=e-acute}|expected"})
         v.sample({"mapper_case": mlines[len(mlines) // 2], "format": "token types|selection of mappers 1,2,3 (*=all)|expected calls mapper@token"})
         v.cov["exhaustive"] = True
-        v.notes["family"] = "all strings <= %d over 8 symbols in 5 literal forms (strconv.Quote, single-quoted, back-quoted, arbitrary double-/single-quoted bodies); all streams <= %d over 3 token types x 5^3 mapper selections; Upper on the first selection" % (4 if quick else 5, 3 if quick else 4)
+        v.notes["family"] = "all strings <= %d over 8 symbols in 5 literal forms (strconv.Quote, single-quoted, back-quoted, arbitrary double-/single-quoted bodies); all streams <= %d over 3 token types x 5^3 mapper selections, streams <= 1 x 5^6 selections of six mappers; Upper on the first selection" % (4 if quick else 5, 3 if quick else 4)
         v.assumptions += ["Quoting.tla's Quote equals strconv.Quote on every string of the run (self-checked)", "the abstract alphabet has one representative per class: letter, escape letter, each quote, backslash, newline, multi-byte rune"]
     return v.finish()
